@@ -17,7 +17,7 @@ theorem ring_lock_facts : bufferLocks = lockFacts := by decide
 exactly the lock operation `lockFacts` lists after that mark (none where it lists none). -/
 theorem lockFacts_steps :
     markPcs.map (fun pc => (pc.yid, lockOpCode pc))
-      = (((lockFacts.map (·.2)).flatten |> markOps).filter (fun p => p.1 < 120)).map (fun p => (some p.1, p.2)) := by
+      = (((lockFacts.map (·.2)).flatten |> markOps).filter (fun p => p.1 != 120 && p.1 != 121)).map (fun p => (some p.1, p.2)) := by
   decide
 
 /-- the ring cannot be smaller than two read blocks; the block sizes are what the
